@@ -21,6 +21,7 @@ use fvm_ipld_bitfield::BitField;
 use fvm_ipld_encoding::RawBytes;
 use fvm_shared::address::Address;
 use fvm_shared::bigint::{BigInt, Zero};
+use num_traits::Signed;
 use fvm_shared::clock::ChainEpoch;
 use fvm_shared::consensus::{ConsensusFault, ConsensusFaultType};
 use fvm_shared::econ::TokenAmount;
@@ -118,6 +119,22 @@ pub fn miner_world(seed: u64, policy: Policy, kinds: &[bool], whale_sectors: u64
     if whale_sectors > 0 {
         let wi = w.miners.len() - 1;
         whale_onboard(&mut w, wi, whale_sectors);
+        // let the whale's sectors be proven (a bit more than one proving period), then start from a
+        // network whose smoothed power estimate has converged to the actual power, as on a
+        // long-running network (the genesis estimate of 750 PiB would otherwise take months of
+        // ticks to decay and make every fee projection ill-conditioned)
+        let mut o = Outcome::default();
+        let to = w.v.epoch() + w.v.policy.wpost_proving_period + 200;
+        advance_light(&w, to, &mut o);
+        let mut pst: fil_actor_power::State = state(&w.v, &fil_actors_runtime::STORAGE_POWER_ACTOR_ADDR).unwrap();
+        if pst.total_qa_bytes_committed.is_positive() {
+            pst.this_epoch_qa_power_smoothed = fil_actors_runtime::reward::FilterEstimate::new(pst.total_qa_bytes_committed.clone(), BigInt::zero());
+            let head = w.v.put_store(&pst);
+            let mut a = w.v.actor(&fil_actors_runtime::STORAGE_POWER_ACTOR_ADDR).unwrap();
+            a.state = head;
+            w.v.set_actor(&fil_actors_runtime::STORAGE_POWER_ACTOR_ADDR, a);
+            w.v.checkpoint();
+        }
     }
     w.v.invs.borrow_mut().clear();
     w
